@@ -16,7 +16,7 @@ for patch in sys.argv[2:]:
         if r.returncode:
             print("PATCH-DOES-NOT-APPLY", patch); continue
         try:
-            fd, stamp, _ = facts.ensure_facts(repo=repo2, tag="-selftest")
+            fd, stamp, _ = facts.ensure_facts(repo=repo2, tag="-selftest-%d" % os.getpid())
         except facts.BuildFailed as e:
             print("BUILD-FAILED", str(e)[-1500:]); continue
         for pid in pids:
